@@ -64,6 +64,8 @@ def step (a : List String) : String :=
   | "url.set" :: rest => cmdUrlSet rest
   | "parse.special" :: rest => cmdParseSpecial rest
   | "parse.base" :: rest => cmdParseBase rest
+  | "parse.agg" :: rest => cmdParseAgg rest
+  | "parse.aggbase" :: rest => cmdParseAggBase rest
   | ["canfast", h] => match Model.FastScan.fastScan (unhexs h) with
     | some true => "t" | some false => "f" | none => "n"
   | ["prepath", ty, hin, hpath] => hexs (Model.PathPrepared.parsePreparedPath (unhexs hin) (natArg ty) (unhexs hpath))
